@@ -1036,11 +1036,42 @@ class FuncVerifier:
             sv = self.global_value(node.value.id + '.' + node.attr, st)
             if sv is not None and node.value.id not in st.env:
                 return sv
+        # a class of another module used as a value (tp.TypeParameter in a tuple of classes)
+        if isinstance(node.value, ast.Name) and self.module is not None and node.value.id in self.module.imports \
+                and node.value.id not in st.env:
+            mod = self.module.imports[node.value.id]
+            if mod in self.E.fe.modules and node.attr in self.E.fe.modules[mod].classes:
+                ck = self.E.fe.modules[mod].classes[node.attr].key
+                return SV(P.I(z3.IntVal(self.E.class_id(ck))), T.Abs('PyType'))
+        # class attribute constant, e.g. ast.ClassDeclaration.REGULAR or Variance.INVARIANT
+        cref = None
+        if isinstance(node.value, ast.Name) and self.module is not None and node.value.id not in st.env:
+            cref = self.E.fe.resolve(node.value.id, self.module, strict=False) \
+                if (node.value.id in self.module.classes or node.value.id in self.module.imports) else None
+        elif isinstance(node.value, ast.Attribute) and isinstance(node.value.value, ast.Name) and self.module is not None \
+                and node.value.value.id in self.module.imports and node.value.value.id not in st.env:
+            mod = self.module.imports[node.value.value.id]
+            if mod in self.E.fe.modules and node.value.attr in self.E.fe.modules[mod].classes:
+                cref = self.E.fe.modules[mod].classes[node.value.attr].key
+        if cref is not None and cref in self.E.fe.classes and node.attr in self.E.fe.classes[cref].class_attrs:
+            cv = self.E.fe.classes[cref].class_attrs[node.attr]
+            if isinstance(cv, ast.Constant):
+                return self.ev_Constant(cv, st, spec)
         base = self.ev(node.value, st, spec)
         bt = base.ty
         if bt.is_opt:
             self.safety(st, 'none-deref', base.term != P.none, node, spec)
             bt = bt.strip_opt()
+        if bt.is_any and node.attr in self.E.field_types:
+            # duck-typed attribute access: the object must be of a class that declares the field (unique field type)
+            d = self.E.field_types[node.attr]
+            tys = set(d.values())
+            if len(tys) == 1:
+                fty = self.E.parse_ty(tys.pop())
+                self.safety(st, 'attr', z3.And(P.tag(base.term) == P.TAG_OBJ, self.isinstance_term(base.term, list(d))),
+                            node, spec)
+                arr = self.heap_array(st, node.attr, fty)
+                return SV(z3.Select(arr, base.term), fty)
         if not bt.is_obj:
             self.err(node, 'attribute .%s on %r' % (node.attr, bt))
         try:
